@@ -68,6 +68,7 @@ type glFn struct {
 	results  []*types.Var
 	done, ok bool
 	busy     bool
+	unit     string // the generated file that defines it
 }
 
 type gl struct {
@@ -82,6 +83,7 @@ type gl struct {
 	tmp         int
 	cur         *glFn
 	jn          int
+	exported    map[string][]string
 }
 
 func (g *gl) bad(pos token.Pos, format string, a ...any) {
@@ -347,13 +349,18 @@ func doGoLean(repo, out string) error {
 	if harness == "" {
 		harness = "/verif/harness"
 	}
+	// one translator state for all units: a function or struct translated for an earlier unit is referred to there
+	g := &gl{pkgs: map[string]*packages.Package{}, fns: map[*types.Func]*glFn{}, structSeen: map[*types.Named]bool{},
+		names: map[types.Object]string{}, nameCnt: map[string]int{}}
+	loadErr := g.load(harness, os.Getenv("VERIF_MODFILE"))
+	var earlier []string
 	for _, u := range glUnits {
-		g := &gl{pkgs: map[string]*packages.Package{}, fns: map[*types.Func]*glFn{}, structSeen: map[*types.Named]bool{},
-			names: map[types.Object]string{}, nameCnt: map[string]int{}}
-		err := g.load(harness, os.Getenv("VERIF_MODFILE"))
+		g.out.Reset()
+		g.structs = nil
+		g.unsupported = nil
 		var translated []string
-		if err != nil {
-			g.unsupported = append(g.unsupported, "load: "+err.Error())
+		if loadErr != nil {
+			g.unsupported = append(g.unsupported, "load: "+loadErr.Error())
 		} else {
 			for _, t := range u.targets {
 				fn := g.find(t)
@@ -367,9 +374,19 @@ func doGoLean(repo, out string) error {
 			}
 		}
 		var b strings.Builder
-		fmt.Fprintf(&b, "import JT.Go.Sem\n/-! GENERATED by `extract golean` from /repo — do not edit. Translation of Go source into Lean (see harness/cmd/extract/golean.go). -/\n")
+		fmt.Fprintf(&b, "import JT.Go.Sem\n")
+		for _, e := range earlier {
+			fmt.Fprintf(&b, "import JT.Gen.%s\n", e)
+		}
+		fmt.Fprintf(&b, "/-! GENERATED by `extract golean` from /repo — do not edit. Translation of Go source into Lean (see harness/cmd/extract/golean.go). -/\n")
 		b.WriteString("set_option linter.unusedVariables false\n")
-		fmt.Fprintf(&b, "namespace JT.Gen.%s\nopen JT JT.Go\n\n", u.file)
+		fmt.Fprintf(&b, "namespace JT.Gen.%s\nopen JT JT.Go\n", u.file)
+		for _, e := range earlier {
+			fmt.Fprintf(&b, "open JT.Gen.%s (", e)
+			b.WriteString(strings.Join(g.exported[e], " "))
+			b.WriteString(")\n")
+		}
+		b.WriteString("\n")
 		b.WriteString(g.emitStructs())
 		b.WriteString(g.out.String())
 		sort.Strings(translated)
@@ -381,6 +398,25 @@ func doGoLean(repo, out string) error {
 		}
 		for _, s := range g.unsupported {
 			fmt.Fprintln(os.Stderr, "golean: untranslated:", s)
+		}
+		// names this unit defines (functions and structs), for the `open` of later units
+		if g.exported == nil {
+			g.exported = map[string][]string{}
+		}
+		var names []string
+		for _, n := range g.structs {
+			names = append(names, g.structName(n))
+		}
+		for _, fn := range g.fns {
+			if fn.done && fn.ok && fn.unit == "" {
+				fn.unit = u.file
+				names = append(names, fn.lean)
+			}
+		}
+		sort.Strings(names)
+		if len(names) > 0 {
+			g.exported[u.file] = names
+			earlier = append(earlier, u.file)
 		}
 	}
 	_ = repo
